@@ -66,15 +66,20 @@ func (a *application) start(mode gen.ApplicationMode, options gen.ApplicationOpt
 
 		pid, err := a.node.spawn(item.Factory, opts)
 		if err != nil {
-			// roll back. This run has not started: with the state back to
-			// 'loaded' and a neutral mode a.terminate only removes the killed
-			// members from the group (no mode rule of an earlier run, no second
-			// close of its 'stopped' channel, no Terminate callback)
+			// roll back. This run has not started: the members spawned so far
+			// leave the group before the state goes back to 'loaded' (one that
+			// is busy terminates later: it must not be counted as a member of
+			// the next run, whose last member it would seem to be), then they
+			// are killed. With a neutral mode and outside the group their
+			// termination triggers no mode rule, no second close of the
+			// 'stopped' channel of an earlier run and no Terminate callback.
+			members := a.members()
+			for _, pid := range members {
+				a.group.Delete(pid)
+			}
 			a.mode = gen.ApplicationModeTemporary
 			atomic.StoreInt32(&a.state, int32(gen.ApplicationStateLoaded))
-			// Kill may terminate the member right here, which calls back into
-			// a.terminate and takes the group lock: do not kill under Range
-			for _, pid := range a.members() {
+			for _, pid := range members {
 				a.node.Kill(pid)
 			}
 			return err
